@@ -771,6 +771,119 @@ def density_scenario(prim, boundary):
     return f
 
 
+def normal_direction_summary(prim):
+    """contract of <Polygon>Boundary._get_normal_direction(direction): rows e with |e| = 1, e . d = 0 and fixed
+    orientation (parallelogram: cross(d, e) > 0, triangle: cross(d, e) < 0); requires d != 0"""
+    from tpv.core import STensor
+    from tpv.tlib import Tensor
+
+    sign = 1 if prim.name == "parallelogram" else -1
+
+    def summary(I, fn, args, kwargs):
+        selfo, direction = args[0], args[1]
+        dv = direction.val
+        gi, hy = dv.generic_index("nd")
+        r = gi[0]
+        dx, dy = zreal(dv.at([r, (0,)])), zreal(dv.at([r, (1,)]))
+        I.ctx.oblige(f"pre@{I.ctx.loc}:direction-non-zero", dx * dx + dy * dy > 0, hy, "pre")
+        nf = sum(len(d.factors) for d in dv.shape[:1])
+        fx = z3.Function(core.fresh_name("ndx"), *([z3.IntSort()] * nf + [z3.RealSort()])) if nf else z3.Real(core.fresh_name("ndx"))
+        fy = z3.Function(core.fresh_name("ndy"), *([z3.IntSort()] * nf + [z3.RealSort()])) if nf else z3.Real(core.fresh_name("ndy"))
+
+        def fn_(idx):
+            row = idx[0]
+            flat = [zint(c) for c in row]
+            ex, ey = (fx(*flat), fy(*flat)) if nf else (fx, fy)
+            ddx, ddy = zreal(dv.at([row, (0,)])), zreal(dv.at([row, (1,)]))
+            I.ctx.axiom(z3.And(ex * ex + ey * ey == 1, ex * ddx + ey * ddy == 0, sign * (ddx * ey - ddy * ex) > 0))
+            return core.select_comp(idx[1][0], 2, [lambda: ex, lambda: ey])
+
+        return Tensor(STensor([dv.shape[0], Dim([2])], fn_, "real"))
+
+    return summary
+
+
+def normal_direction_helper_scenario(prim):
+    def f(S):
+        N = S.int("N", 1)
+        fD = z3.Function("Dir", z3.IntSort(), z3.IntSort(), z3.RealSort())
+        # requires: every direction row is non-zero (axiom schema instantiated wherever a row is read)
+        Dn = S.tensor("Dir", [N, 2], on_access=lambda idx, v: S.ctx.axiom(fD(zint(idx[0][0]), 0) * fD(zint(idx[0][0]), 0) + fD(zint(idx[0][0]), 1) * fD(zint(idx[0][0]), 1) > 0))
+        bd = S.I.new_without_init(S.find(prim.bcls))
+        e = S.method(bd, "_get_normal_direction", Dn, "cpu").val
+        q, hy = Dn.val.generic_index("h")
+        dx, dy = zreal(Dn.val.at([q[0], (0,)])), zreal(Dn.val.at([q[0], (1,)]))
+        ex, ey = zreal(e.at([q[0], (0,)])), zreal(e.at([q[0], (1,)]))
+        sign = 1 if prim.name == "parallelogram" else -1
+        S.ensure("unit-length", ex * ex + ey * ey == 1, hy)
+        S.ensure("perpendicular-to-the-direction", ex * dx + ey * dy == 0, hy)
+        S.ensure("fixed-orientation", sign * (dx * ey - dy * ex) > 0, hy)
+
+    f.__name__ = f"{prim.name}_normal_direction_helper"
+    return f
+
+
+def polygon_normal_scenario(prim):
+    def f(S):
+        N = S.int("N", 1)
+        h = Harness(S, prim, S.cfg + "/rows", point_rows=N)
+        fX = z3.Function("X", z3.IntSort(), z3.IntSort(), z3.RealSort())
+        raw = lambda r: [fX(zint(r[0]), z3.IntVal(c)) for c in range(2)]
+        # requires: every point lies exactly on the boundary of its own parameter row
+        X = S.tensor("X", [N, 2], on_access=lambda idx, v: S.ctx.axiom(z3.Implies(z3.And(zint(idx[0][0]) >= 0, zint(idx[0][0]) < zint(N)), prim.onbd(raw(idx[0]), h.vals(idx[0])))))
+        pts = S.new(POINTS, X, S.new(prim.space, "x"))
+        S.use_contract(prim.bcls + "._get_normal_direction", normal_direction_summary(prim))
+        bd = S.getattr(h.dom, "boundary")
+        cells = []
+        S.on_call(prim.bcls + "._add_local_normal_vector", lambda rec: cells.append(rec["normals"]))
+        S.ctx.ghost["assumed_lemmas"].pop()  # this hook only observes, it assumes nothing
+        plog = S.probe(prim.bcls + "._add_local_normal_vector")
+        nrm = S.method(bd, "normal", pts, h.params).val
+        ok = nrm.rank == 2 and nrm.shape[1].concrete() == 2 and len(cells) >= 1
+        S.ensure("shape-N-2", ok)
+        if not ok:
+            return
+        Nsum = cells[0].val  # ghost: the un-normalised sum of the active edge normals
+        xv = lambda q: (raw(q[0]), h.vals(q[0]))
+        nv = lambda q: cols(nrm, q[0], 2)
+        Nv = lambda q: cols(Nsum, q[0], 2)
+
+        def cases(q):
+            """proof hint: which edge the point is exactly on  x  which 'close to an edge' tests of the code fire"""
+            import itertools
+
+            x, v = xv(q)
+            U, V, D_ = prim.UVD(x, v)
+            edges = [U == 0, U == D_, V == 0, V == D_] if prim.name == "parallelogram" else [U == 0, V == 0, U + V == D_]
+            atoms = []
+            if prim.name == "parallelogram":
+                for rec in plog:
+                    i = rec["i"]
+                    atoms.append(tlib.isclose_term(zreal(rec["bary_x"].at([q[0], ()])), core.realval(i)))
+                    atoms.append(tlib.isclose_term(zreal(rec["bary_y"].at([q[0], ()])), core.realval(i)))
+            else:
+                for rec in plog:
+                    atoms.append(tlib.isclose_term(zreal(rec["bary_coord"].at([q[0], ()])), core.realval(rec["i"])))
+            if prim.name == "parallelogram":
+                return edges  # the coarse split suffices (and is much cheaper)
+            out = []
+            for e in edges:
+                for bits in itertools.product([True, False], repeat=len(atoms)):
+                    out.append(z3.And([e] + [a if b else z3.Not(a) for a, b in zip(atoms, bits)]))
+            return out
+
+        touch = lambda q: [zreal(X.val.at([q[0], (0,)])) == raw(q[0])[0]]
+        S.forall("edge-normal-sum-is-outward", nrm, lambda q: z3.And(prim.outward(xv(q)[0], Nv(q), xv(q)[1])), cases=cases, extra_hyps=touch)
+        S.forall("edge-normal-sum-is-not-zero", nrm, lambda q: dot(Nv(q), Nv(q)) > 0, cases=cases, extra_hyps=touch)
+        S.forall("result-is-the-normalised-sum", nrm, lambda q: z3.Implies(dot(Nv(q), Nv(q)) > 0, z3.And([nv(q)[c] == Nv(q)[c] / tlib.sqrt_term(z3.simplify(dot(Nv(q), Nv(q)))) for c in range(2)])), extra_hyps=touch)
+        # pure lemma: dividing by the (positive) length gives a unit vector with the same side of every hyperplane
+        S.lemma_schema("normalisation-keeps-direction-and-gives-unit-length", lambda: [z3.Real("L_a"), z3.Real("L_b"), z3.Real("L_s"), z3.Real("L_g0"), z3.Real("L_g1")], lambda a, b, s, g0, g1: z3.Implies(z3.And(s > 0, s * s == a * a + b * b), z3.And((a / s) * (a / s) + (b / s) * (b / s) == 1, z3.Implies(a * g0 + b * g1 > 0, (a / s) * g0 + (b / s) * g1 > 0), z3.Implies(a * g0 + b * g1 < 0, (a / s) * g0 + (b / s) * g1 < 0))))
+
+    f.__name__ = f"{prim.name}_normal"
+    f.__doc__ = "modular: _get_normal_direction under its contract; ghost: the un-normalised sum of edge normals; pre: exact boundary points. unit length and outwardness of the result follow from the three obligations and the pure normalisation lemma"
+    return f
+
+
 class _Oriented(ParallelogramP):
     pass
 
@@ -808,7 +921,17 @@ def _register():
         scenario("C18", [prim.cls + ".bounding_box"] + ([BDOMAIN + ".bounding_box"] if prim.has_boundary else []), configs=CFGS)(bbox_scenario(prim))
         if prim.has_boundary:
             if prim.name in ("parallelogram", "triangle"):
-                for ori in ():  # TODO polygon normals: registered once the modular proof is in place
+                scenario("C06", [prim.bcls + "._get_normal_direction"], configs=["any"])(normal_direction_helper_scenario(prim))
+                for ori in (("ccw", "cw") if prim.name == "parallelogram" else ()):
+                    # triangle: the corner cases (two active edges) need a Cauchy-Schwarz argument the solvers do not
+                    # find within the budget; not registered (C06 does not cover triangle normals)
+                    p3 = type(prim)()
+                    p3.orientation = ori
+                    g3 = polygon_normal_scenario(p3)
+                    g3.__name__ = f"{prim.name}_normal_{ori}"
+                    # constant shapes only: with row-wise shape functions two of the cases sit at the solver budget
+                    scenario("C06", [prim.bcls + ".normal", prim.bcls + "._add_local_normal_vector", BDOMAIN + "._transform_input_for_normals"], configs=["const"])(g3)
+                for ori in ():
                     p2 = type(prim)()
                     p2.orientation = ori
                     g = normal_scenario(p2)
